@@ -136,6 +136,12 @@ def check_conditioned(res):
     return None
 
 
+def conditioned_flags(res):
+    """per executed step: was the action obtained from a behaviour-policy query at the current observation made since the previous step?"""
+    steps = [e for e in res["log"] if e[0] == "step"]
+    return [(e[1], e[2]) in [(o, a) for n, o, a in res["queries"] if n == k] for k, e in enumerate(steps)]
+
+
 def check_greedy(res):
     """C13 for the tabular loops run with epsilon = 0: every executed action is a maximiser of the routine's current table at the
     current observation (q_learning, sarsa, monte_carlo; the table after the latest update made before that step)."""
